@@ -37,6 +37,12 @@ def _resolve(x, spec, ctg, np):
     if isinstance(x, str) and x.startswith("@"):
         if x == "@plus1":
             return (_ident, _plus1)
+        if x == "@plus1_list":
+            return [_ident, _plus1]
+        if x == "@impl_tuple":
+            return (_einsum_f64, _tensordot_f64)
+        if x == "@impl_list":
+            return [_einsum_f64, _tensordot_f64]
         if x == "@pathfn":
             return _pathfn
         if x == "@pathobj":
@@ -55,6 +61,17 @@ def _ident(x):
 
 def _plus1(x):
     return x + 1
+
+
+def _einsum_f64(eq, *xs):
+    """a user-supplied einsum whose use is observable: the result is float64"""
+    import numpy as np
+    return np.einsum(eq, *xs).astype(np.float64)
+
+
+def _tensordot_f64(a, b, axes):
+    import numpy as np
+    return np.tensordot(a, b, axes).astype(np.float64)
 
 
 def _default_path(n):
@@ -80,6 +97,12 @@ def _size_dict_of(spec):
         for ix, d in zip(t, s):
             sd[ix] = d
     return sd
+
+
+def _dtype(v, np):
+    if isinstance(v, tuple):
+        return "strip:" + str(np.asarray(v[0]).dtype)
+    return str(np.asarray(v).dtype)
 
 
 def _tolist(v, np):
@@ -142,12 +165,14 @@ def exec_sequence(specs, clear=True):
                 if api == "array_contract":
                     v = ctg.array_contract(arrays, inputs, output, optimize=opt, cache_expression=cache, **ck, **kwargs)
                     res["value"] = _tolist(v, np)
+                    res["dtype"] = _dtype(v, np)
                 elif api == "ncon":
                     v = ctg.ncon(arrays, inputs, optimize=opt, cache_expression=cache, **ck, **kwargs)
                     res["value"] = _tolist(v, np)
                 elif api == "einsum":
                     v = ctg.einsum(spec["eq"], *arrays, optimize=opt, cache_expression=cache, **kwargs)
                     res["value"] = _tolist(v, np)
+                    res["dtype"] = _dtype(v, np)
                 elif api in ("expr", "einsum_expr"):
                     if api == "expr":
                         e = ctg.array_contract_expression(inputs, output, optimize=opt, cache=cache, **sizes, **ck, **kwargs)
@@ -168,7 +193,9 @@ def exec_sequence(specs, clear=True):
                     res["obj"] = idx
                     # snapshot of the object's state before / after calling it (frame hypothesis)
                     snap0 = _snapshot(e)
-                    res["value"] = _tolist(e(*call_arrays), np)
+                    v = e(*call_arrays)
+                    res["value"] = _tolist(v, np)
+                    res["dtype"] = _dtype(v, np)
                     if call_arrays2:
                         res["value2"] = _tolist(e(*call_arrays2), np)
                         res["value3"] = _tolist(e(*call_arrays), np)
@@ -267,7 +294,7 @@ def expected_value(spec, arrays, oracle, np):
     via = spec.get("kwargs", {}).get("via")
     res = oracle.dense_einsum(inputs, output, sd, [np.asarray(a) for a in arrays])
     ref = oracle.dense_to_nested(res, output, sd)
-    if via == "@plus1":
+    if via in ("@plus1", "@plus1_list"):
         ref = ref + 1
     return ref
 
@@ -318,6 +345,18 @@ def pools():
            {"sort_contraction_indices": True}, {"prefer_einsum": True, "strip_exponent": True},
            {"implementation": None}]
     P["kwargs"] = ([var(B3, kwargs=k) for k in kws], ["expr", "array_contract"])
+    # option values that cannot be hashed (a list / dict where a tuple / bool is usual), next to the same
+    # contraction without the option and with the hashable form: the cached machine must fall back to the
+    # uncached behaviour (or key correctly), in every order
+    # (implementation=[..] / prefer_einsum=[..] are not members: ContractionTree.get_contractor keys
+    #  tree.contraction_cores on them, so they raise TypeError with and without the interface cache)
+    ukws = [{}, {"via": "@plus1"}, {"via": "@plus1_list"}, {"implementation": "@impl_tuple"},
+            {"sort_contraction_indices": {"x": 1}}, {"sort_contraction_indices": [1]},
+            {"via": "@plus1_list", "implementation": "@impl_tuple"},
+            {"via": "@plus1_list", "prefer_einsum": True}, {"prefer_einsum": True}]
+    P["unhashable-kwargs"] = ([var(B3, kwargs=k) for k in ukws], ["expr", "array_contract"])
+    P["unhashable-kwargs-einsum"] = ([dict(eq="ab,bc->ca", shapes=B2["shapes"], kwargs=k) for k in ukws],
+                                     ["einsum", "einsum_expr"])
     P["kwargs-einsum"] = ([dict(eq="ab,bc,cd->ad", shapes=B3["shapes"], kwargs=k) for k in kws],
                           ["einsum", "einsum_expr"])
     P["canonicalize"] = ([var(B2, canonicalize=True), var(B2, canonicalize=False),
@@ -520,6 +559,13 @@ def judge_sequence(ctx, pool, specs, results, oracle, np, where, known_key=None)
                 elif not value_matches(res["value3"], ref, oracle, np):
                     bad = "expression called a third time on the first arrays gives %r, want %r" % (
                         res["value3"], ref.tolist())
+            if bad is None and "dtype" in res and not res["dtype"].startswith("strip"):
+                custom = spec.get("kwargs", {}).get("implementation") in ("@impl_tuple", "@impl_list")
+                multi = (len(spec["inputs"]) if spec.get("inputs") is not None else spec["eq"].count(",") + 1) > 1
+                want_dt = "float64" if (custom and multi) else "int64"
+                if res["dtype"] != want_dt:
+                    bad = "result dtype %s, expected %s (%s user-supplied implementation)" % (
+                        res["dtype"], want_dt, "with the" if custom else "without a")
             if bad is None and res.get("frame") is False:
                 bad = "calling the expression changed its state (contractions / option slots / closure cells)"
             if bad is None and "obj" in res:
@@ -1038,6 +1084,18 @@ def run(ctx):
         for sq in seqs:
             mode = rng.random()
             apis_here = [rng.choice(apis)] * len(sq) if mode < 0.6 else [rng.choice(apis) for _ in sq]
+            by_cache = {}
+            if pname.startswith("unhashable-kwargs"):
+                def _unh(m):
+                    return any(isinstance(v, (list, dict)) or (isinstance(v, str) and v.endswith("_list"))
+                               for v in members[m].get("kwargs", {}).values())
+                for a, b in zip(sq, sq[1:]):
+                    if _unh(b) and not members[a].get("kwargs"):
+                        ctx.count("feature:unhashable_option_after_plain_call")
+                    if _unh(a) and not members[b].get("kwargs"):
+                        ctx.count("feature:plain_call_after_unhashable_option")
+                    if _unh(a) != _unh(b) and members[a].get("kwargs") and members[b].get("kwargs"):
+                        ctx.count("feature:unhashable_next_to_hashable_form")
             for cache in (True, False):
                 specs = [instantiate(members[m], api, rng, np, cache=cache) for m, api in zip(sq, apis_here)]
                 # constants pool: the alternative constant
@@ -1055,6 +1113,7 @@ def run(ctx):
                 total += 1
                 judge_sequence(ctx, pname, specs, results, oracle, np, "in-process cache=%s" % cache,
                                known_key=known_key)
+                by_cache[cache] = (specs, results)
                 ctx.count("oracle:%s" % pname)
                 if cache:
                     hits = sum(1 for s, r in zip(specs, results)
@@ -1063,6 +1122,15 @@ def run(ctx):
                         ctx.count("oracle:sequences_with_a_hit")
                 ctx.case(("oracle", pname, tuple(sq), tuple(apis_here), cache), nontrivial=len(set(sq)) > 1,
                          sample=None)
+            # caching on vs off, call by call: same outcome kind and same dtype
+            if known_key is None and True in by_cache and False in by_cache:
+                for i, (rc, ru) in enumerate(zip(by_cache[True][1], by_cache[False][1])):
+                    if bool(rc.get("exc")) != bool(ru.get("exc")) or rc.get("dtype") != ru.get("dtype"):
+                        ctx.fail("C13 %s: call %d differs with caching on (%s, dtype %s) and off (%s, dtype %s)" % (
+                            pname, i, rc.get("exc") or "ok", rc.get("dtype"), ru.get("exc") or "ok", ru.get("dtype")),
+                            {"pool": pname, "failing_call": i, "sequence": by_cache[True][0],
+                             "results_cache_on": by_cache[True][1], "results_cache_off": by_cache[False][1]})
+                        break
             if len(batch_sub) < ctx.n(40, 320) and rng.random() < (0.03 if ctx.quick else 0.02):
                 specs = [instantiate(members[m], api, rng, np, cache=True) for m, api in zip(sq, apis_here)]
                 batch_sub.append((pname, specs, known_key))
